@@ -292,6 +292,18 @@ func (i *interpreter) symShift(op token.Token, x, y value) value {
 
 // symEq builds the term for x == y at type t (values may be partly symbolic).
 func (i *interpreter) symEq(t types.Type, x, y value) *Term {
+	// strings (symbolic, enumerated or concrete) inside composite values: the string operators decide
+	switch x.(type) {
+	case symStr, enumStr, string:
+		switch y.(type) {
+		case symStr, enumStr, string:
+			bt, ok := boolTerm(i.binop(token.EQL, t, x, y))
+			if !ok {
+				panic(unsupported{"string comparison did not yield a boolean"})
+			}
+			return bt
+		}
+	}
 	switch xv := x.(type) {
 	case symb, bool:
 		tx, _ := boolTerm(x)
